@@ -406,7 +406,7 @@ registry.register("C09", {
         "durations below 2^40 ns, timestamps below 2^50 us, backoff below 2^20: the u64 microsecond product in pto_period does not overflow (the harness is built with overflow checks and would panic)",
         "`Duration::as_nanos() as u64` truncations are not modelled (durations above 584 years)",
         "manager: the driver (verif hook) completes an open transmission burst before it hands an ACK frame, a timeout or a discard to the manager, rejects ACK frames whose largest acknowledged exceeds the last packet number sent (as the packet space does), keeps both paths validated and not amplification limited, ECN off, no MTU probes, PTO jitter 0, Retry not driven",
-        "manager: no theorem says that the model's own runs pass the manager judgement (only a vm_compute example does); false alarms of that judgement would show as judge failures on the unchanged tree",
+        "manager: the judgement proved to accept every run of the model is the one with one timer granularity of slack on a lost packet's age (Recovery.judge_tol, histories without discard); the property judgement proper (Recovery.judge) differs from it only in that comparison and is proved to reject the model on the recorded finding's input",
     ],
     "trusted_base": ["no axioms: Print Assumptions reports 'Closed under the global context' for every C09 theorem"],
     "explanation": "Coq theorems C09_* over models of loss.rs / rtt_estimator.rs / pto.rs / timestamp.rs; models tied to the source by generated constants and by differential execution of the extracted models against the real code",
